@@ -2,7 +2,7 @@
    Theorems about the model model/HistChunk.v (semantic layer of tsdb/chunkenc/histogram*.go,
    float_histogram*.go, histogram_meta.go). *)
 From Coq Require Import List ZArith Bool Lia.
-From Verif Require Import model.HistChunk proof.HistChunkProofs proof.HistChunkIns
+From Verif Require Import model.HistChunk model.HistBatch proof.HistBatchProofs proof.HistChunkProofs proof.HistChunkIns
   proof.HistChunkDelta proof.HistChunkMaps proof.HistChunkCounter proof.HistChunkAdjust proof.HistChunkReencode proof.HistChunkSeq.
 Import ListNotations.
 Open Scope Z_scope.
@@ -198,3 +198,26 @@ Example C11_input_unchanged_ex :
   | _ => False
   end.
 Proof. vm_compute. split; reflexivity. Qed.
+
+(* ------------------------------------------------------------------------------------------
+   One appender transaction (model/HistBatch.v: getCurrentBatch / newBatch / typesInBatch, the
+   commit order floats -> integer histograms -> float histograms per batch, in-order acceptance
+   at commit).  For ANY number of series and ANY mix of sample flavours (float, integer / float
+   histogram, integer / float custom-bucket histogram) appended through one appender and
+   committed once: if the timestamps of every series increase in append order, every series
+   holds afterwards exactly the samples appended to it, in that order - no sample is committed
+   ahead of an earlier one of its series and then makes it out of order. *)
+Theorem C11_tx_order : forall l : list txs,
+  Forall (fun x => x_ty x <> StNone) l ->
+  (forall s, sincr None (of_series s l)) ->
+  forall s, of_series s (tx_run l) = of_series s l.
+Proof. exact tx_run_faithful. Qed.
+(* non-vacuity: a float NHCB opens the batch, an integer histogram of the same series follows
+   (it must open a second batch), floats of another series are interleaved *)
+Example C11_tx_order_ex :
+  let l := [mkTx 0 StCBFHist 1000 0; mkTx 1 StFloat 1000 1; mkTx 0 StHist 2000 2; mkTx 1 StFloat 2000 3;
+            mkTx 0 StFloat 3000 4; mkTx 0 StCBFHist 4000 5] in
+  map x_id (tx_run l) = [1; 0; 3; 2; 4; 5] /\
+  map x_id (of_series 0 (tx_run l)) = [0; 2; 4; 5] /\
+  length (a_done (fold_left tx_append l init_state)) = 2%nat.
+Proof. vm_compute. repeat split; reflexivity. Qed.
